@@ -187,11 +187,13 @@ namespace foonathan
                     if (!mem)
                     {
                         // reserve more then the default capacity if that didn't work either
+                        // whole nodes of the pool, otherwise the array does not fit into what is inserted
+                        auto needed = (count * node_size + pool.node_size() - 1) / pool.node_size()
+                                      * pool.node_size();
                         detail::check_allocation_size<bad_array_size>(
-                            count * node_size,
-                            [&] { return next_capacity() - pool.alignment() + 1; }, info());
+                            needed, [&] { return next_capacity() - pool.alignment() + 1; }, info());
 
-                        block = reserve_memory(pool, count * node_size);
+                        block = reserve_memory(pool, needed);
                         pool.insert(block.memory, block.size);
 
                         mem = pool.allocate(count * node_size);
